@@ -38,6 +38,16 @@ def closedFast (nv : Nat) (tris : Array (Nat × Nat × Nat)) : Bool :=
   let nodup := (List.range (fw.size - 1)).all fun i => fw[i]! != fw[i+1]!
   nondeg && nodup && fw == bw
 
+/-- specification predicate of the Balanced half (`C09.Balanced`): every directed edge occurs as often as its reverse -/
+def balancedSpec (tris : List (Nat × Nat × Nat)) : Bool := balancedB (tris.flatMap triEdges)
+
+/-- the same, n log n: the sorted multiset of directed edges equals the sorted multiset of reversed edges -/
+def balancedFast (nv : Nat) (tris : Array (Nat × Nat × Nat)) : Bool :=
+  let n := nv + 1
+  let fw := sortedNat (tris.flatMap fun t => #[t.1 * n + t.2.1, t.2.1 * n + t.2.2, t.2.2 * n + t.1])
+  let bw := sortedNat (tris.flatMap fun t => #[t.2.1 * n + t.1, t.2.2 * n + t.2.1, t.1 * n + t.2.2])
+  tris.all (fun t => t.1 < nv && t.2.1 < nv && t.2.2 < nv) && fw == bw
+
 def trisOf (idx : Array Nat) : Array (Nat × Nat × Nat) :=
   (Array.range (idx.size / 3)).map fun k => (idx[3*k]!, idx[3*k+1]!, idx[3*k+2]!)
 
@@ -47,6 +57,14 @@ def closed (nv : Nat) (idx : Array Nat) : String :=
   -- small meshes: the fast evaluation must agree with the specification predicate
   if tris.size ≤ 150 then
     let spec := idx.size % 3 == 0 && closedSpec tris.toList && tris.all (fun t => t.1 < nv && t.2.1 < nv && t.2.2 < nv)
+    if fast == spec then boolStr spec else "oracle-self-check-failed"
+  else boolStr fast
+
+def balanced (nv : Nat) (idx : Array Nat) : String :=
+  let tris := trisOf idx
+  let fast := idx.size % 3 == 0 && balancedFast nv tris
+  if tris.size ≤ 150 then
+    let spec := idx.size % 3 == 0 && balancedSpec tris.toList && tris.all (fun t => t.1 < nv && t.2.1 < nv && t.2.2 < nv)
     if fast == spec then boolStr spec else "oracle-self-check-failed"
   else boolStr fast
 
@@ -268,6 +286,23 @@ def handle (op : String) (args : List String) : Option String := do
       -- `March` (non-parallel path) panics when nothing at all was produced; the harness maps both to one token
       if tris.isEmpty then pure "empty-or-panic"
       else pure (toString tris.length ++ " " ++ " ".intercalate (tris.map intsStr))
+    | _ => none
+  | "c09.holds.balanced" =>
+    match args with
+    | nv :: nt :: rest => do
+      let nv ← nat? nv; let nt ← nat? nt
+      let (idx, rest) ← takeNats (3 * nt) rest
+      if !rest.isEmpty then none
+      pure (balanced nv idx)
+    | _ => none
+  -- the strict predicate on the known-finding class (two inside regions separated only by samples equal to the cutoff)
+  | "c09.holds.closed_touching_at_cutoff_witness" =>
+    match args with
+    | nv :: nt :: rest => do
+      let nv ← nat? nv; let nt ← nat? nt
+      let (idx, rest) ← takeNats (3 * nt) rest
+      if !rest.isEmpty then none
+      pure (closed nv idx)
     | _ => none
   | "c09.holds.closed" =>
     match args with
